@@ -54,6 +54,25 @@ func checkAttr(dir string, paths []string) map[string]string {
 	return out
 }
 
+func checkAttrOf(dir, attr string, paths []string) map[string]string {
+	out := map[string]string{}
+	if len(paths) == 0 {
+		return out
+	}
+	cmd := exec.Command("git", "check-attr", "-z", "--stdin", attr)
+	cmd.Dir = dir
+	cmd.Stdin = strings.NewReader(strings.Join(paths, "\x00") + "\x00")
+	b, err := cmd.Output()
+	if err != nil {
+		return out
+	}
+	f := strings.Split(string(b), "\x00")
+	for i := 0; i+2 < len(f); i += 3 {
+		out[f[i]] = f[i+2]
+	}
+	return out
+}
+
 // neighbours: names that differ from n at one position in a way an over- or under-escaping would confuse
 func neighbours(n string) []string {
 	set := map[string]bool{n: true}
@@ -212,7 +231,9 @@ func c19Scenario(c *Ctx, i int, r *Rng) {
 		sub = "sub"
 		os.MkdirAll(filepath.Join(dir, sub), 0o755)
 	}
-	pre := Pick(r, []string{"", "", "# a comment\n*.txt text\n", "*.old filter=lfs diff=lfs merge=lfs -text\nother.bin -text\n", "[attr]mybin -text -diff\n*.raw mybin\n", "*.txt text\r\n*.old filter=lfs -text\r\n"})
+	pre := Pick(r, []string{"", "", "# a comment\n*.txt text\n", "*.old filter=lfs diff=lfs merge=lfs -text\nother.bin -text\n", "[attr]mybin -text -diff\n*.raw mybin\n", "*.txt text\r\n*.old filter=lfs -text\r\n",
+		// files whose last line is not terminated (hand-edited, printf): an appended entry must not be glued to it
+		"*.txt text\n*.old filter=lfs -text", "*.old filter=lfs -text\n# trailing comment", "*.old filter=lfs -text\r\n*.txt text", "other.bin -text\n*.old filter=lfs"})
 	wd := filepath.Join(dir, sub)
 	if pre != "" {
 		os.WriteFile(filepath.Join(wd, ".gitattributes"), []byte(pre), 0o644)
@@ -238,6 +259,7 @@ func c19Scenario(c *Ctx, i int, r *Rng) {
 	}
 	others := []string{rel("n.txt"), rel("o.old"), rel("other.bin"), rel("r.raw"), "top.old"}
 	before := checkAttr(dir, append(append([]string(nil), probes...), others...))
+	beforeText := checkAttrOf(dir, "text", others)
 	args := []string{"track"}
 	if filename {
 		args = append(args, "--filename")
@@ -255,6 +277,37 @@ func c19Scenario(c *Ctx, i int, r *Rng) {
 	attrs1, _ := os.ReadFile(filepath.Join(wd, ".gitattributes"))
 	after := checkAttr(dir, append(append([]string(nil), probes...), others...))
 	// other patterns' assignments unchanged
+	afterText := checkAttrOf(dir, "text", others)
+	for _, q := range others {
+		if beforeText[q] != afterText[q] && !(filename && q == rel(arg)) && !strings.Contains(string(attrs1), "-text\n") {
+			fail("`git lfs track` changed the `text` attribute of a path the argument does not denote", q+": text "+beforeText[q]+" -> "+afterText[q], "")
+		}
+	}
+	if !filename {
+		// what the pattern denotes: Git's own reading of the same pattern written as a quoted pattern
+		// (no escaping by git-lfs involved) in a scratch repository at the same relative place
+		spec := filepath.Join(c.Work, fmt.Sprintf("c19-%d-spec", i))
+		defer os.RemoveAll(spec)
+		if gitInit(spec) == nil {
+			os.MkdirAll(filepath.Join(spec, sub), 0o755)
+			q := strings.ReplaceAll(strings.ReplaceAll(arg, "\\", "\\\\"), "\"", "\\\"")
+			os.WriteFile(filepath.Join(spec, sub, ".gitattributes"), []byte("\""+q+"\" filter=lfs\n"), 0o644)
+			want := checkAttr(spec, probes)
+			for _, pr := range probes {
+				if before[pr] == "lfs" {
+					continue
+				}
+				if (want[pr] == "lfs") != (after[pr] == "lfs") {
+					sig := ""
+					if strings.Contains(arg, " ") && strings.ContainsAny(pr, "\t") {
+						sig = "D9a"
+					}
+					fail("after `git lfs track <pattern>` Git's attribute lookup differs from what the pattern denotes (Git's reading of the quoted pattern)", fmt.Sprintf("pattern=%q path=%q want lfs=%v got lfs=%v written=%q", arg, pr, want[pr] == "lfs", after[pr] == "lfs", string(attrs1)), sig)
+				}
+			}
+			c.R.Count("pattern.denotation-checked")
+		}
+	}
 	for _, q := range others {
 		if before[q] != after[q] && !(filename && q == rel(arg)) {
 			fail("`git lfs track` changed the attribute assignment of a path the argument does not denote", q+": "+before[q]+" -> "+after[q], "")
